@@ -18,7 +18,7 @@
       ⇒ any spelling of the token sequence of an enum value `v` parses to `v`  (`respaced`)
       ⇒ `<S {-- P>`, `<S --] P>`, `<S {-] P>`, `<S <\> P>` parse to the documented terms (`derived_*`, C10)
 -/
-import Proofs.MRT.Spell
+import Proofs.MRT.Zero
 import Props.C03b
 import Props.C09
 import Props.C10
@@ -85,6 +85,16 @@ theorem pipelines_agree_shipped (sv : SValue) (v : Narsese) :
   ⟨pipelines_agree _ _ surface_ascii C03.foldOK_ascii lexSide_ascii C02.litemsOK_ascii sv v,
    pipelines_agree _ _ surface_latex C03.foldOK_latex lexSide_latex C02.litemsOK_latex sv v,
    pipelines_agree _ _ surface_han C03.foldOK_han lexSide_han C02.litemsOK_han sv v⟩
+
+/-- **the inline-macro path** (`enum_nse!` strips every whitespace character of the literal, then calls `parse_chars`):
+deleting all whitespace — the lexical format's table, which is `char::is_whitespace` (see `C09.lean`) — from ANY
+spelling and parsing the rest gives the value -/
+theorem macro_path_parse (F : EFormat) (L : LFormat) (hV : SurfaceItemsOK F) (hX : LexSide F L) (sv : SValue) (v : Narsese)
+    (h : spellOK F L sv v = true) (h0 : topVB F (zeroV sv) = true) :
+    F.eparse (L.idealize (svalTxt F sv)) = .ok v := by
+  simp only [spellOK, Bool.and_eq_true, beq_iff_eq] at h
+  obtain ⟨⟨⟨⟨h1, _⟩, h3⟩, _⟩, h5⟩ := h
+  exact macro_path hV hX sv h1 h3 h0 v h5
 
 /-! ### C10 end to end: the derived copulas -/
 
